@@ -55,7 +55,11 @@ func SetBackend(b Backend, id int) {
 // NewAddress returns a variable of type Address, which can be used
 // for unmarshalling an address from its binary representation.
 func NewAddress(id BackendID) Address {
-	return backend[id].NewAddress()
+	b, ok := backend[id]
+	if !ok {
+		return nil // No backend with this id.
+	}
+	return b.NewAddress()
 }
 
 // DecodeSig calls DecodeSig of all Backends and returns an error if none return a valid signature.
